@@ -35,7 +35,7 @@ def p_units(ctx):
     for a in U.ASSUMED:
         if a not in ctx.assumptions:
             ctx.assumptions.append(a)
-    side = {"C01": "both", "C02": "writer", "C03": "reader", "C11": "text"}.get(ctx.prop, "both")
+    side = {"C01": "both", "C02": "writer", "C03": "reader", "C04": "reader", "C05": "reader", "C11": "text"}.get(ctx.prop, "both")
     t0 = time.time()
     res = U.check(ctx, 10000 if ctx.tier == "quick" else 60000, side)
     in_region = {}
